@@ -9,13 +9,17 @@
 
    every record: res ("ok" | "raise:<exception class>@<stage>"), bad (names of values whose Python type was
    not the expected scalar type; non-empty => clause wrong_type), d (the requested config, for replay).
-   kind = "cfg"   {res, o, hash, hd, hneg, hmod, fname, h2, h3, f3}
+   kind = "cfg"   {res, o, hash, hd, hneg, hmod, fname, h2, h3, f3, o_kept}
                   one config: stable_hash_cfg(), to_fname(); h2 = hash asked a second time, h3 / f3 =
-                  hash / file name of an independently constructed equal config
-   kind = "rt"    {res, path, o, b, same_fn, lib_eq, ho, hb, fo, fb, ser}
+                  hash / file name of an independently constructed equal config; o_kept = the raw content of
+                  the object after these calls is what it was before them
+   kind = "rt"    {res, path, o, b, same_fn, lib_eq, ho, hb, fo, fb, ser, o_kept, arg_kept}
+                  o = raw content of the config read BEFORE serialize() (deep snapshot);
                   b = load(serialize(o)) (path "direct") or load(json.loads(json.dumps(serialize(o))))
-                  (path "json"); same_fn = (b.maze_ctor is o.maze_ctor); lib_eq = the library's ==;
-                  ho/hb, fo/fb = hash and file name before / after; ser = the JSON-loaded serialized tree
+                  (path "json"); same_fn = (b.maze_ctor is o.maze_ctor); lib_eq = the library's == on the live objects;
+                  ho/hb, fo/fb = hash and file name before / after; ser = the JSON-loaded serialized tree (snapshot
+                  taken before load); o_kept = the original's raw content after serialize + load is still o;
+                  arg_kept = the object passed to load is unchanged by load
    kind = "line"  {res, field, cfgs, hashes}    configs (as requested by the driver) that differ pairwise
                   in exactly the one field `field`, and their hashes
    kind = "fam"   {res, cfgs, hashes}           a family of configs, all pairs judged
@@ -31,6 +35,9 @@
                   library chose) -> hash/fname again (h1, f1; raw content `after`); fresh / hf / ff = raw content,
                   hash, file name of a FRESHLY constructed config holding the edited content; reload / hl / fl /
                   leq = load(json(serialize(edited object))), its hash, file name, and the library's ==
+                  via = deepcopy | replace | reload (+ ":setattr"): the edit is made on a COPY of the hashed object
+                  (copy.deepcopy / dataclasses.replace / load(json(serialize))); these records also carry
+                  orig_kept / h0b = the original's raw content is unchanged / its hash asked again afterwards
    kind = "cedit" the same history on a MazeDatasetCollectionConfig; before / after / fresh / reload = {name, members}
    res fields: "ok" | "raise:<exception class>@<stage>".
 
@@ -48,8 +55,11 @@
    NOT fixed by the statement (no single grid size / generator) -> Layer M.
    Layer M ("M:"): the JSON-loaded serialized tree equals ConfigId!SerTree on the modelled keys, and
    ConfigId!Load of it equals the reloaded config.
-   "H:" clauses are harness guards (a record outside the scope WF / a malformed line); the driver
-   checks the same conditions itself before logging, so they never fire on a sound harness. *)
+   "H:" clauses are harness guards (a record outside the scope WF / a malformed line / a "fresh equal config" that is
+   not equal); the driver checks what it can before logging, so they do not fire on a sound harness and sound code.
+   A guard never decides a Layer-P clause: every Layer-P clause is evaluated only on the part of a record that the
+   guards vouch for (see EditJudge / LineClauses / RtClauses), so a reported Layer-P clause stands on its own and the
+   driver may report it (exit 1) even when guards fired in the same run; guards ALONE are a machinery error (exit 2). *)
 EXTENDS ConfigId, Json, IOUtils, SequencesExt
 Log == ndJsonDeserialize(IOEnv.VERIF_LOG)
 
@@ -68,9 +78,11 @@ CoordsAreTuples(ek) == ek.t = "dict" /\ \A k \in 1..Len(ek.v) :
 ArgsAreTuples(af) == af.t = "list" /\ \A k \in 1..Len(af.v) :
                           LET f == af.v[k] IN f.t = "dict" /\ HasKey(f, "args") /\ Get(f, "args").t = "tuple"
 
+\* o = raw content read off the config BEFORE serialize / load were called (a deep snapshot), b = the loaded config.
+\* The Layer-P clauses compare b with o directly and do not need the scope predicate; only the model part (SerTree / Load)
+\* does -> a config outside WF loses its Layer-M comparison (guard H:not_in_scope), never its Layer-P verdict.
 RtClauses(r) ==
   LET o == r.o  b == r.b IN
-  IF ~WF(o) THEN {"H:not_in_scope"} ELSE
      Flag(b.name = o.name, "name_changed")
      \cup Flag(b.grid_n = o.grid_n, "grid_n_changed")
      \cup Flag(b.n_mazes = o.n_mazes, "n_mazes_changed")
@@ -85,7 +97,12 @@ RtClauses(r) ==
      \cup Flag(r.lib_eq, "not_equal_by_library")
      \cup Flag(r.hb = r.ho, "hash_changed_by_round_trip")
      \cup Flag(r.fb = r.fo, "fname_changed_by_round_trip")
-     \cup (IF SerMatchesModel(r.ser, o)
+     \* the statement is silent about serialize / load leaving their operands alone (what it does promise -- an EQUAL loaded
+     \* config -- is judged above against the snapshot and through the library's == against the live object): Layer M
+     \cup Flag(r.o_kept, "M:original_modified_by_round_trip")
+     \cup Flag(r.arg_kept, "M:load_modified_its_argument")
+     \cup (IF ~WF(o) THEN {"H:not_in_scope"}
+           ELSE IF SerMatchesModel(r.ser, o)
            THEN Flag(CfgEq(Load(r.ser), b), "M:load_differs_from_model")
            ELSE {"M:ser_differs_from_model"})
 
@@ -93,19 +110,21 @@ RtClauses(r) ==
 HMod(r) == IF r.hneg THEN (100000 - Last5(r.hd)) % 100000 ELSE Last5(r.hd)
 CfgClauses(r) ==
   LET o == r.o IN
-  IF o.ctor \notin Generators THEN {"H:unknown_generator"} ELSE
-     Flag(r.fname \in Fnames(o.name, o.grid_n, o.n_mazes, o.ctor, HMod(r)), "fname_format")
-     \cup Flag(r.hmod = HMod(r), "H:hmod_inconsistent")
-     \cup Flag(r.h2 = r.hash /\ r.h3 = r.hash, "hash_not_repeatable")
+     Flag(r.h2 = r.hash /\ r.h3 = r.hash, "hash_not_repeatable")
      \cup Flag(r.f3 = r.fname, "fname_not_repeatable")
+     \cup Flag(r.hmod = HMod(r), "H:hmod_inconsistent")
+     \cup Flag(r.o_kept, "M:original_modified_by_hashing")
+     \cup (IF o.ctor \notin Generators THEN {"H:unknown_generator"}
+           ELSE Flag(r.fname \in Fnames(o.name, o.grid_n, o.n_mazes, o.ctor, HMod(r)), "fname_format"))
 
 AllPairs(n, P(_, _)) == \A a \in 1..n : \A b \in (a + 1)..n : P(a, b)
+\* a malformed line (harness guard) is not judged for collisions: its pairs need not differ at all
 LineClauses(r) ==
   LET n == Len(r.cfgs)
       OneField(a, b) == DiffFields(r.cfgs[a], r.cfgs[b]) = {r.field}
       Distinct(a, b) == r.hashes[a] # r.hashes[b] IN
-  Flag(Len(r.hashes) = n /\ r.field \in Fields /\ AllPairs(n, OneField), "H:line_malformed")
-  \cup Flag(AllPairs(n, Distinct), "hash_collision:" \o r.field)
+  IF ~(Len(r.hashes) = n /\ r.field \in Fields /\ AllPairs(n, OneField)) THEN {"H:line_malformed"}
+  ELSE Flag(AllPairs(n, Distinct), "hash_collision:" \o r.field)
 
 \* all pairs of a family; the common case (all hashes distinct) is decided by one set cardinality
 FamClauses(r) ==
@@ -135,14 +154,23 @@ CLineClauses(r) ==
       Separated(a, b) == r.hashes[a] = r.hashes[b] => CollEq(r.colls[a], r.colls[b]) IN
   Flag(Len(r.hashes) = n /\ AllPairs(n, Separated), "hash_collision:collection")
 
-\* histories with an in-place edit; `differs` = content really changed, freshSame / reloadSame = raw content comparisons
+\* histories with an in-place edit; `differs` = content really changed, freshSame / reloadSame = raw content comparisons.
+\* A Layer-P clause is evaluated only on the part of the record its guard vouches for: "the hash moved" needs an edit that
+\* changed the content, "the hash equals the fresh config's" needs a fresh config that really holds the edited content.
+\* So a guard never taints a Layer-P verdict: whatever Layer-P clause is reported stands on its own.
 EditJudge(r, differs, wellFormed, freshSame, reloadSame) ==
   Flag(differs /\ wellFormed, "H:edit_malformed")
   \cup Flag(freshSame, "H:fresh_not_equal")
-  \cup Flag(r.h1 # r.h0 /\ r.h1 = r.hf, "hash_stale_after_in_place_edit")
-  \cup Flag(r.f1 = r.ff, "fname_stale_after_in_place_edit")
+  \cup Flag((differs => r.h1 # r.h0) /\ (freshSame => r.h1 = r.hf), "hash_stale_after_in_place_edit")
+  \cup Flag(freshSame => r.f1 = r.ff, "fname_stale_after_in_place_edit")
   \cup Flag(reloadSame /\ r.leq, "reloaded_copy_not_equal")
   \cup Flag(r.hl = r.h1 /\ r.fl = r.f1, "reloaded_copy_hashes_differently")
+  \* histories that edit a COPY (deepcopy / dataclasses.replace / load(serialize)) also log the original afterwards:
+  \* orig_kept = its raw content is still `before`, h0b = its hash asked again
+  \cup (IF "h0b" \in DOMAIN r
+        THEN Flag(r.orig_kept, "M:original_changed_by_editing_a_copy")
+             \cup Flag(r.orig_kept => r.h0b = r.h0, "hash_not_repeatable")
+        ELSE {})
 RawSame(a, b) == CfgEq(a, b) /\ a.slmin = b.slmin /\ a.slmax = b.slmax
 EditClauses(r) ==
   LET changed == DiffFields(r.before, r.after) IN
